@@ -69,6 +69,22 @@ def scenarios(tier):
                      setup=[["ifchange", ["c"]], ["edit", "s", "1"]],
                      post_cmds=post + [["redo-log", "-r", "--no-color", "c"]], times={"c": 0},
                      post_times=[None, None, {"c": 0, "top": 0, "a": 0}]), 0))
+    # one target reached under two names (from a sub-directory as ../c, from the top as c): still shown once -- in a replay that
+    # also shows unchanged dependencies (-u), and when the viewer meets a `locked ../c` record of one job before the `do c` of another
+    sw = World("noisy-subdir", {"s": ["0", "1"]},
+               {"top.do": [S(deps=["d/a", "e/b", "f"], noise=1)], "d/a.do": [S(deps=["../c"], noise=1, out="file")],
+                "e/b.do": [S(deps=["../c"], noise=1)], "f.do": [S(deps=["c"], noise=1)], "c.do": [S(deps=["s"], noise=1)]},
+               ["top", "d/a", "e/b", "f", "c"], ["top"])
+    L.append((SC.scn("noisy-three-names-of-one-target-j1", sw, ["redo --no-color top"], visible=VIS, log_mode=True,
+                     post_cmds=post + [["redo-log", "-r", "-u", "--no-color", "top"]]), 0))
+    ssw = World("noisy-subdir-shared", {"s": ["0", "1"]},
+                {"top.do": [S(deps=["d/a", "e/b"], noise=1)],
+                 "d/a.do": [S(deps=["../c"], noise=1, out="file", sync=(("start", "wait", "c-started"), ("start", "set", "a-asked")))],
+                 "e/b.do": [S(deps=["../c"], noise=1)],
+                 "c.do": [S(deps=["s"], noise=1, sync=(("start", "set", "c-started"), ("mid", "wait", "a-asked")))]},
+                ["top", "d/a", "e/b", "c"], ["top"])
+    L.append((SC.scn("noisy-two-names-of-one-shared-target-j2", ssw, ["redo --no-color -j2 top"], visible=VIS, log_mode=True,
+                     post_cmds=post), 0 if q else 1))
     if not q:
         L.append((SC.scn("noisy-ifchange-j1", w, ["redo-ifchange top"], visible=VIS, log_mode=True, post_cmds=post), 2))
         L.append((SC.scn("noisy-record-like-line-j1", noisy_world(2), ["redo --no-color top"], visible=VIS, log_mode=True,
@@ -119,6 +135,7 @@ def parse_raw(text):
 def judge_stream(name, pairs, targets, scn, out, times=None):
     """each target's tagged lines: exactly once, in order, complete, under its own header"""
     times = times if times is not None else (scn.get("times") or {})
+    targets = [t.split("/")[-1] for t in targets]     # script lines carry $1, the name relative to the script's directory
     seen = {t: [] for t in targets}
     for cur, line in pairs:
         m = TAG.match(line.strip("\r"))
